@@ -45,6 +45,18 @@ def way(x):
     return top(x)
 
 
+# module-level namesakes of Outer.meth / Outer.Inner.meth and of make.<locals>.inner: plain functions that merely share
+# a name with a probed method or closure must keep their own absolute reference
+def meth(x):
+    v = x + 20
+    return v
+
+
+def inner(x):
+    v = x + 40
+    return v
+
+
 class Box:
     class Lid:
         def open(self, x):
